@@ -2212,7 +2212,7 @@ Section Shape.
     destruct rows as [|r0 rest].
     - inversion E; subst. apply repeat_length.
     - inversion HF; subst.
-      destruct mode; inversion E; subst; unfold vadd, vmax; rewrite ?map_length; apply fold_zip_length; assumption.
+      destruct mode; inversion E; subst; unfold vadd, vmax; rewrite ?map_length; apply fold_zip_length; auto.
   Qed.
 
   Lemma enc_cell_length : forall (c : config S) j v o,
@@ -2253,7 +2253,7 @@ Section Shape.
     rewrite forward_with_cellwise in Hf by assumption.
     destruct (construct_ok S c); [|discriminate].
     destruct (cw_shape _ _ _ _ Hf) as [Hlen [Rm Ro]].
-    split; [rewrite Hlen; apply cells_length|].
+    unfold shape_is. split; [etransitivity; [exact Hlen | apply cells_length]|].
     apply Forall_forall. intros row Hrow.
     split; [apply (proj1 (rect_forall _ o) Ro); assumption|].
     apply Forall_forall. intros v Hv.
